@@ -318,6 +318,7 @@ def campaign_stall(ctx, n):
             nd['required'] = [m['name'] for m in nodes if any(s == 'ipc://' + nd['name'] for s in m['sources'])]
         topo = {'family': 'stall-' + pos, 'nframes': 10**9, 'nodes': nodes, 'max_delay_ms': rng.choice([0, 5, 30, 90])}
         t1 = rng.randint(1 * SEC, 3 * SEC)
+        if not nodes[0]['work']: t1 = t1 // 20          # a source that needs no time per frame free-runs until the stall: keep that phase short (same behaviour, far fewer simulation steps)
         sd = rng.randrange(10**9)
         faults = [{'t': t1, 'kind': 'stall', 'node': victim, 'arg': 60 * SEC}]
         net, objs, _ = run_topology(topo, sd, horizon_s=(t1 + 4 * SEC) / SEC, faults=faults)     # 4 s < connection time-out (5 s)
